@@ -31,9 +31,9 @@ JOBQUEUE = {
                       "harness_cfg": dict(JQ_HCFG, JCSync=True), "flags": []}],
     },
     "goals": {t: [{"module": "JobQueue_Goal.tla", "cfg": "JobQueue_Goal_jc.cfg", "harness_cfg": dict(JQ_HCFG, JCSync=True, MaxJobs=2), "timeout": 300, "flags": ["-suffix", n]},
-                  {"module": "JobQueue_Goal.tla", "cfg": "JobQueue_Goal_q.cfg", "harness_cfg": JQ_HCFG, "timeout": 300, "flags": ["-suffix", n]},
-                  # the same directed schedules with the restart's informers listing Jobs before JobConfigs
-                  {"module": "JobQueue_Goal.tla", "cfg": "JobQueue_Goal_q.cfg", "harness_cfg": dict(JQ_HCFG, JobsFirst=True), "label": "jobsfirst", "timeout": 300, "flags": ["-suffix", n]}]
+                  # one search, two replays: the second with the restart's informers listing Jobs before JobConfigs
+                  {"module": "JobQueue_Goal.tla", "cfg": "JobQueue_Goal_q.cfg", "harness_cfg": JQ_HCFG, "timeout": 300, "flags": ["-suffix", n],
+                   "variants": [{"label": "jobsfirst", "harness_cfg": dict(JQ_HCFG, JobsFirst=True)}]}]
               for t, n in (("quick", "20"), ("thorough", "50"))},
     "harness": {
         "quick": [
@@ -147,7 +147,8 @@ CRON = {
                      {"module": "Cron_Sim.tla", "cfg": "Cron_Sim_b.cfg", "num": 3000, "depth": 60, "harness_cfg": {"NJC": 3, "MaxMissed": 1, "MaxDownMin": 1}, "timeout": 1200}],
     },
     "goals": {t: [{"module": "Cron_Goal.tla", "cfg": "Cron_Goal_a.cfg", "harness_cfg": {"NJC": 1, "MaxMissed": 2, "MaxDownMin": 3}, "timeout": 420},
-                  {"module": "Cron_Goal.tla", "cfg": "Cron_Goal_b.cfg", "harness_cfg": {"NJC": 1, "MaxMissed": 2, "MaxDownMin": 3}, "timeout": 300}] for t in ("quick", "thorough")},
+                  {"module": "Cron_Goal.tla", "cfg": "Cron_Goal_b.cfg", "harness_cfg": {"NJC": 1, "MaxMissed": 2, "MaxDownMin": 3}, "timeout": 300},
+                  {"module": "Cron_Goal.tla", "cfg": "Cron_Goal_c.cfg", "harness_cfg": {"NJC": 1, "MaxMissed": 2, "MaxDownMin": 3}, "timeout": 300}] for t in ("quick", "thorough")},
     "harness": {
         "quick": [
             {"name": "random", "args": ["cron", "-mode", "random", "-seed", "{seed}", "-runs", "250", "-steps", "120"]},
